@@ -1,1 +1,2 @@
 pub mod lex;
+pub mod subst;
